@@ -329,8 +329,9 @@ def check_scale(rec: core.Recorder, *, op: str, pre: dict, post: dict, factor, d
         with np.errstate(all="ignore"):
             # beyond the largest number of a narrow float type the result reads inf: that is the type's range, not the scaling
             ovf_f, ovf_e = np.abs(ef) > top * (1 - 4 * eps), np.abs(ee) > top * (1 - 8 * eps)
-            okf = bool(np.all(np.where(ovf_f, np.isinf(f1) | (np.abs(f1 - ef) <= 4 * eps * np.abs(ef)), np.abs(f1 - ef) <= 4 * eps * np.abs(ef) + 1e-300)))
-            oke = bool(np.all(np.where(ovf_e, np.isinf(e1) | (np.abs(e1 - ee) <= 8 * eps * np.abs(ee)), np.abs(e1 - ee) <= 8 * eps * np.abs(ee) + 1e-300)))
+            # (an unknown - NaN - content stays unknown under every scaling)
+            okf = bool(np.all(np.where(np.isnan(ef), np.isnan(f1), np.where(ovf_f, np.isinf(f1) | (np.abs(f1 - ef) <= 4 * eps * np.abs(ef)), np.abs(f1 - ef) <= 4 * eps * np.abs(ef) + 1e-300))))
+            oke = bool(np.all(np.where(np.isnan(ee), np.isnan(e1), np.where(ovf_e, np.isinf(e1) | (np.abs(e1 - ee) <= 8 * eps * np.abs(ee)), np.abs(e1 - ee) <= 8 * eps * np.abs(ee) + 1e-300))))
     if not okf:
         i = int(np.argmax(np.abs(f1 - ef).ravel()))
         fail("contents are not the operand's contents " + ("divided" if divide else "multiplied") + " by the scalar", ["frequencies"],
@@ -391,8 +392,12 @@ def check_scale(rec: core.Recorder, *, op: str, pre: dict, post: dict, factor, d
                 bad = ("min/max", (s0[2], s0[3]), (s1[2], s1[3]))
             elif w0 != 0 and w1 != 0 and not math.isnan(w1):
                 m0, m1 = s0[0] / w0, s1[0] / w1
-                v0 = (s0[1] - s0[0] ** 2 / w0) / w0
-                v1 = (s1[1] - s1[0] ** 2 / w1) / w1
+                try:
+                    v0 = s0[1] / w0 - m0 * m0
+                    v1 = s1[1] / w1 - m1 * m1
+                except OverflowError:
+                    rec.skip("C06.scale.stats", "sums_beyond_float_range")
+                    return
                 scale2 = abs(s0[1] / w0) + m0 * m0
                 if not _close(m1, m0, abs(m0) + math.sqrt(abs(scale2)), rel):
                     bad = ("mean", m0, m1)
